@@ -236,12 +236,14 @@ theorem derive_body (H1 : SbmSpec P G O X enc Fsbm) (H2 : BytesSpec P G O X enc 
   cases hs : Model.SM2.scalarBaseMult X priv with
   | panic =>
     rw [hs] at hsb
-    refine ⟨fun x y h => by cases h, fun h => by cases h, fun _ => ?_⟩
+    simp only [Outcome.bind_panic]
+    refine ⟨(fun x y h => nomatch h), (fun h => nomatch h), fun _ => ?_⟩
     exact Fails.seq_right c1 (Fails.seq_right c2 (Fails.seq_right c3 (Fails.seq_right c4
       (Fails.seq_left (Fails.call ha hsb)))))
   | err =>
     rw [hs] at hsb
-    refine ⟨fun x y h => by cases h, fun _ => ?_, fun h => by cases h⟩
+    simp only [Outcome.bind_err]
+    refine ⟨(fun x y h => nomatch h), fun _ => ?_, (fun h => nomatch h)⟩
     let e5 : Env := (e4.set 6 nilPointV).set 7 (.int 1)
     let e6 : Env := e5.set 5 nilPointV
     let e7 : Env := e6.set 3 (.int 1)
@@ -283,13 +285,13 @@ theorem derive_body (H1 : SbmSpec P G O X enc Fsbm) (H2 : BytesSpec P G O X enc 
       EvIn.assign (by simp [e9, Env.set])
     have h8 : e10 8 = bytesV pb := by simp [e10, Env.set]
     have pre : ∀ {env' : Env} {c : Ctl} {F : Nat}, EvIn P G O F e10 (.seq dIte2 (.seq dRet .panic)) env' c →
-        EvIn P G O (F + Fsbm + Fbytes + 20) e0 _ env' c := fun h =>
+        EvIn P G O (F + Fsbm + Fbytes + 30) e0 _ env' c := fun h =>
       (EvIn.seq c1 (EvIn.seq c2 (EvIn.seq c3 (EvIn.seq c4 (EvIn.seq c5 (EvIn.seq c6 (EvIn.seq c7
         (EvIn.seq c8 (EvIn.seq c9 (EvIn.seq c10 (EvIn.seq c11 h))))))))))).mono (by omega)
     by_cases hl : pb.length = 65
     · have hne : ¬ (Model.Point.bytes X.C pub true).length ≠ 65 := fun h => h hl
       rw [if_neg hne]
-      refine ⟨fun x y h => ?_, fun h => by cases h, fun h => by cases h⟩
+      refine ⟨fun x y h => ?_, (fun h => nomatch h), (fun h => nomatch h)⟩
       simp only [Outcome.ok.injEq, Prod.mk.injEq] at h
       obtain ⟨hx, hy⟩ := h
       have c12 : EvIn P G O 2 e10 dIte2 e10 .norm := EvIn.ite (len_ne65_false h8 hl) rfl (EvIn.skip _)
@@ -308,7 +310,7 @@ theorem derive_body (H1 : SbmSpec P G O X enc Fsbm) (H2 : BytesSpec P G O X enc 
         (by simp only [fuelDerive]; omega)⟩
     · have hne : (Model.Point.bytes X.C pub true).length ≠ 65 := hl
       rw [if_pos hne]
-      refine ⟨fun x y h => by cases h, fun _ => ?_, fun h => by cases h⟩
+      refine ⟨(fun x y h => nomatch h), fun _ => ?_, (fun h => nomatch h)⟩
       have sr : evalVs G e10 [(.mk (.lit 0) (.lit 0)), (.mk (.lit 0) (.lit 0)), (.lit 1)]
           = some [.arr [], .arr [], .int 1] := rfl
       have c12 : EvIn P G O 2 e10 dIte2 e10 (.ret [.arr [], .arr [], .int 1]) :=
